@@ -21,6 +21,8 @@ THEOREMS = ["Names.resolve_direct_import", "Names.resolve_module_alias", "Names.
             # inherited members (layer PdProps/C04Inh.lean: expand_soundI, class_bind_same, mro_member_class, pyDenotes_jI):
             # soundness without pyOwn for the sub-class classImportsUnique
             "Imports.resolve_sound_inherited", "Imports.resolve_order_independent_inherited",
+            # re-exports: the statement is not proved; bounded kernel-checked search + `imports rsound` stream
+            "Imports.reexport_sound_bounded", "Imports.ResolveSoundReexport.order_independent",
             # lemmas of PdProps/C04.lean they rest on (the layers below are PdProps/C04Base.lean and C04Clean.lean)
             "Imports.alias_of_stmt", "Imports.def_registered", "Imports.walk_path"]
 RULE = ("generated acyclic multi-package projects (globally unique definition names, one binding per name per scope; plain, "
@@ -31,7 +33,10 @@ RULE = ("generated acyclic multi-package projects (globally unique definition na
         "ABSTRACT project (a syntactic translation of the sources) is also run through the Lean model of the alias-map BUILDING code "
         "(`imports build`: registry, contents, alias maps and resolutions vs the real System) and through the Lean model of CPython's "
         "import machinery (`pyimp run`: namespaces and dotted names vs the interpreter); `imports wf` evaluates the theorems' "
-        "hypothesis WF on every project. Non-trivial = a dotted name, or a first component bound by an import.")
+        "hypothesis WF on every project; projects of the re-export shape (ShapeGen: definers, re-exporters with __all__, "
+        "consumers of the old and the new names, subclasses of moved classes) are judged by the real pydoctor against the real "
+        "CPython under several processing orders and searched for a counterexample to the relocated soundness statement on the "
+        "two models (`imports rsound`). Non-trivial = a dotted name, or a first component bound by an import.")
 ASSUMPTIONS = ["identity of classes/functions = their unique `ID:` docstring; of variables = their unique integer value; of modules = __name__",
                "names contain no '.' (paths = dotted strings)",
                "the source -> abstract-project translator (harness/gen/bindings.abstract_project, Python's own `ast`) is trusted: it "
@@ -42,7 +47,16 @@ PARTIAL = {"Imports.resolve_sound": "soundness is a theorem (Imports.resolve_sou
                                     "topological index, imports inside the project, names of modules and definitions globally unique, "
                                     "each name bound once per scope - a star import counted as binding every public name of its target "
                                     "and its __all__ -, root module names reserved, no definition name containing a space, base "
-                                    "expressions are names) PLUS (1) the restriction noReexport (no __all__ re-export moves: oracle + C07) "
+                                    "expressions are names) PLUS (1) the restriction noReexport (no __all__ re-export moves). With moves the statement "
+                                    "is `a = finalLoc b` (Imports.ResolveSoundReexport for WFr = WF with noReexport replaced by the "
+                                    "decidable reexportShape of C07's property: one re-exporter per object, direct import from the "
+                                    "plain defining module, top-level classes/functions, no import in class bodies); it is NOT proved "
+                                    "(missing: the machine invariant PdInv with relocated paths through `doMove`, see notes/C04.md). It "
+                                    "is checked (a) in the kernel on the 28 projects of rxFamily under every processing order "
+                                    "(Imports.reexport_sound_bounded, 7704 cases), (b) by the stream reexport-sound-search on the models "
+                                    "(every dotted name of <= 3 components, every scope, several orders; ShapeGen / C07 scenarios / BindGen) "
+                                    "and (c) on the real pydoctor against the real CPython for the ShapeGen projects under several orders "
+                                    "(oracle signatures unsound:reexport-shape, order-dependent:reexport-shape); "
                                     "and (2) EITHER for names whose class steps stay in the classes' own namespaces (PyImp.pyOwn; "
                                     "Imports.resolve_sound_partial) OR - INHERITED members included, no pyOwn - for the decidable "
                                     "sub-class classImportsUnique of WF (Imports.resolve_sound_inherited: a name bound by an import inside "
@@ -668,7 +682,7 @@ def run_reexport_sound(ctx: Ctx) -> None:
     reqs, pay = [], []
     # --- ShapeGen: models + real systems
     shape = []
-    for _ in range(30 if ctx.quick else 500):
+    for _ in range(30 if ctx.quick else 300):
         units, topo = ShapeGen(ctx.rng).project()
         shape.append((units, topo))
     pyres = run_cpython([{"files": files_of(u), "modules": [x.qname for x in u], "sites": True} for u, _ in shape])
@@ -701,29 +715,38 @@ def run_reexport_sound(ctx: Ctx) -> None:
             except Exception as e:
                 ctx.fail("analysis-crash:" + type(e).__name__, {"units": src, "order": order}, f"{type(e).__name__}: {e}")
                 continue
-            b_reqs.append("imports build " + " ".join(toks) + " O|" + ",".join(map(str, order)) + " ?")
-            b_impl.append("ok bad=%s | %s | " % ("true" if dup else "false", pd_dump(system)))
-            b_pay.append({"units": src, "order": order})
             by_doc = {o.docstring: o for o in system.allobjects.values()
                       if isinstance(o.docstring, str) and o.docstring.startswith("ID:")}
-            ans = []
-            for scope, names in sorted(py["scopes"].items()):
-                so = system.allobjects.get(scope) or by_doc.get("ID:" + scope.rsplit(".", 1)[-1])
+            ans, qs, qa = [], [], []
+            modnames = [u.qname for u in units]
+            # every name CPython binds (own namespaces and, through `__mro__`, inherited attributes), identity by
+            # definition site - independent of where a re-export moved the documentation
+            for scope, names in sorted((py.get("sites") or {}).items()):
+                m_, chain = split_scope(scope, modnames)
+                so = real_walk(mods, m_, chain) or by_doc.get("ID:" + scope.rsplit(".", 1)[-1])
                 if so is None:
                     ctx.fail("scope-missing", {"units": src, "order": order}, f"pydoctor has no object {scope}")
                     continue
-                for dotted, pyid in sorted(names.items()):
+                for dotted, sid in sorted(names.items()):
                     try:
                         r = so.resolveName(dotted)
                     except Exception as e:
                         ctx.fail("resolve-crash:" + type(e).__name__, {"units": src, "scope": scope, "name": dotted}, str(e))
                         continue
-                    pid = pd_ident(r)
-                    ans.append((scope, dotted, pid))
+                    ps, cs = (pd_site(r, info) if r is not None else None), py_site(sid, info)
+                    ans.append((scope, dotted, ps))
                     ctx.count("rsound:shape:real-names")
-                    if r is not None and pyid[0] in ("def", "module", "value") and pid != pyid:
+                    if dotted not in py["scopes"].get(scope, {}):
+                        ctx.count("rsound:shape:real-names:inherited")
+                    if r is not None and ps is not None and not cs.startswith("?") and ps != cs:
                         ctx.fail("unsound:reexport-shape", {"units": src, "scope": scope, "name": dotted, "order": order},
-                                 f"in {scope}, {dotted!r} resolves to {pid} but Python binds {pyid}")
+                                 f"in {scope}, {dotted!r} resolves to {r.fullName()} (defined at {ps}) but Python binds {sid}")
+                    if real_walk(mods, m_, chain) is not None and len(qs) < 300:
+                        qs.append("R|%d|%s|%s" % (m_, enc(".".join(chain)) if chain else "-", enc(dotted)))
+                        qa.append(pd_answer(so, dotted))
+            b_reqs.append("imports build " + " ".join(toks) + " O|" + ",".join(map(str, order)) + " ? " + " ".join(qs))
+            b_impl.append("ok bad=%s | %s | %s" % ("true" if dup else "false", pd_dump(system), " ".join(qa)))
+            b_pay.append({"units": src, "order": order})
             answers.append(ans)
         for a in answers[1:]:
             if a != answers[0]:
@@ -733,7 +756,7 @@ def run_reexport_sound(ctx: Ctx) -> None:
                 break
     compare_lines(ctx, "imports-build-shape", b_reqs, b_impl, b_pay)
     # --- the C07 scenarios (annotated variables dropped: the abstract syntax has no annotated assignment)
-    for _ in range(15 if ctx.quick else 300):
+    for _ in range(15 if ctx.quick else 150):
         units, meta = gen_project(ctx.rng)
         units2 = [Unit(u.qname, u.is_package, re.sub(r"(?m)^v_\w+: .*\n'''var'''\n", "", u.source), u.parent) for u in units]
         try:
@@ -745,7 +768,7 @@ def run_reexport_sound(ctx: Ctx) -> None:
         reqs.append("imports rsound " + " ".join(toks) + " O|- ? " + " ".join(",".join(map(str, o)) for o in ords))
         pay.append({"units": {u.qname: u.source for u in units2}, "orders": ords, "gen": "c07"})
     # --- BindGen with re-exports (mostly outside the shape: chains, star re-exports, packages as definers)
-    for _ in range(15 if ctx.quick else 300):
+    for _ in range(15 if ctx.quick else 150):
         g = BindGen(ctx.rng, class_imports=False, reexports=True, subclasses=True)
         units = g.project()
         try:
